@@ -34,39 +34,40 @@ theorem exists_tick_all_dead (u : Int) (now : Int) : ∀ (st : Status), ∃ d : 
 /-- the operators of two states agree on who runs, with which priority and lifetime -/
 def OpsEq (s s' : State) : Prop :=
   ∀ i, (s.ops i = none ∧ s'.ops i = none) ∨
-    ∃ o o', s.ops i = some o ∧ s'.ops i = some o' ∧ o'.prio = o.prio ∧ o'.lifetime = o.lifetime ∧ o'.alive = o.alive
+    ∃ o o', s.ops i = some o ∧ s'.ops i = some o' ∧ o'.prio = o.prio ∧ o'.lifetime = o.lifetime ∧ o'.alive = o.alive ∧ o'.exiting = o.exiting
 
 theorem opsEq_refl (s : State) : OpsEq s s := by
   intro i
   cases h : s.ops i with
   | none => exact Or.inl ⟨rfl, rfl⟩
-  | some o => exact Or.inr ⟨o, o, rfl, rfl, rfl, rfl, rfl⟩
+  | some o => exact Or.inr ⟨o, o, rfl, rfl, rfl, rfl, rfl, rfl⟩
 
 theorem opsEq_trans {a b c : State} (h1 : OpsEq a b) (h2 : OpsEq b c) : OpsEq a c := by
   intro i
-  rcases h1 i with ⟨x, y⟩ | ⟨o, o', ho, ho', p1, l1, a1⟩
+  rcases h1 i with ⟨x, y⟩ | ⟨o, o', ho, ho', p1, l1, a1, e1⟩
   · rcases h2 i with ⟨_, z⟩ | ⟨o2, _, ho2, _⟩
     · exact Or.inl ⟨x, z⟩
     · rw [y] at ho2; cases ho2
-  · rcases h2 i with ⟨z, _⟩ | ⟨o2, o2', ho2, ho2', p2, l2, a2⟩
+  · rcases h2 i with ⟨z, _⟩ | ⟨o2, o2', ho2, ho2', p2, l2, a2, e2⟩
     · rw [ho'] at z; cases z
     · rw [ho'] at ho2; injection ho2 with e; subst e
-      exact Or.inr ⟨o, o2', ho, ho2', by rw [p2, p1], by rw [l2, l1], by rw [a2, a1]⟩
+      exact Or.inr ⟨o, o2', ho, ho2', by rw [p2, p1], by rw [l2, l1], by rw [a2, a1], by rw [e2, e1]⟩
 
 theorem opsEq_upd {s s' : State} {j : Identity} {o onew : Op} (ho : s.ops j = some o) (hops : s'.ops = updOp s.ops j onew)
-    (hp : onew.prio = o.prio) (hl : onew.lifetime = o.lifetime) (ha : onew.alive = o.alive) : OpsEq s s' := by
+    (hp : onew.prio = o.prio) (hl : onew.lifetime = o.lifetime) (ha : onew.alive = o.alive)
+    (he : onew.exiting = o.exiting) : OpsEq s s' := by
   intro i
   by_cases hij : i = j
   · subst hij
-    exact Or.inr ⟨o, onew, ho, by rw [hops]; simp, hp, hl, ha⟩
+    exact Or.inr ⟨o, onew, ho, by rw [hops]; simp, hp, hl, ha, he⟩
   · rw [hops, updOp_other _ _ hij]
     cases h : s.ops i with
     | none => exact Or.inl ⟨rfl, rfl⟩
-    | some o2 => exact Or.inr ⟨o2, o2, rfl, rfl, rfl, rfl, rfl⟩
+    | some o2 => exact Or.inr ⟨o2, o2, rfl, rfl, rfl, rfl, rfl, rfl⟩
 
 /-- every operator in `js` touches (landing at once): what the status looks like afterwards -/
 theorem run_keepalives {u : Int} (hu : 0 < u) : ∀ (js : List Identity) (s : State),
-    (∀ j ∈ js, ∃ o, s.ops j = some o ∧ o.alive = true ∧ 1 ≤ o.lifetime) →
+    (∀ j ∈ js, ∃ o, s.ops j = some o ∧ o.alive = true ∧ o.exiting = false ∧ 1 ≤ o.lifetime) →
     ∃ s', run u s (js.map (fun j => Label.keepalive j 0)) = some s' ∧ s'.now = s.now ∧ OpsEq s s' ∧
       ∀ k r, (k, r) ∈ s'.status ↔
         ((k ∈ js ∧ ∃ o, s.ops k = some o ∧ r = { priority := o.prio, lifetime := o.lifetime, lastseen := s.now }) ∨
@@ -78,20 +79,20 @@ theorem run_keepalives {u : Int} (hu : 0 < u) : ∀ (js : List Identity) (s : St
     exact ⟨s, rfl, rfl, opsEq_refl s, fun k r => by simp⟩
   | cons j rest ih =>
     intro s hall
-    obtain ⟨o, ho, hoa, hoL⟩ := hall j List.mem_cons_self
+    obtain ⟨o, ho, hoa, hoe, hoL⟩ := hall j List.mem_cons_self
     have hstep : ∃ s1, step u s (.keepalive j 0) = some s1 := by
-      simp only [step, ho, hoa, if_true]; exact ⟨_, rfl⟩
+      simp only [step, ho, hoa, hoe]; exact ⟨_, rfl⟩
     obtain ⟨s1, h1⟩ := hstep
-    obtain ⟨o', ho', _, hnow1, hst1, hops1⟩ := keepalive_spec h1
+    obtain ⟨o', ho', _, _, hnow1, _, hst1, hops1⟩ := keepalive_spec h1
     rw [ho] at ho'; injection ho' with e; subst e
-    have heq1 : OpsEq s s1 := opsEq_upd ho hops1 rfl rfl rfl
-    have hall1 : ∀ k ∈ rest, ∃ o, s1.ops k = some o ∧ o.alive = true ∧ 1 ≤ o.lifetime := by
+    have heq1 : OpsEq s s1 := opsEq_upd ho hops1 rfl rfl rfl rfl
+    have hall1 : ∀ k ∈ rest, ∃ o, s1.ops k = some o ∧ o.alive = true ∧ o.exiting = false ∧ 1 ≤ o.lifetime := by
       intro k hk
-      obtain ⟨ok, hok, hka, hkL⟩ := hall k (List.mem_cons_of_mem _ hk)
-      rcases heq1 k with ⟨x, _⟩ | ⟨a, a', ha, ha', _, hl, hal⟩
+      obtain ⟨ok, hok, hka, hke, hkL⟩ := hall k (List.mem_cons_of_mem _ hk)
+      rcases heq1 k with ⟨x, _⟩ | ⟨a, a', ha, ha', _, hl, hal, hex⟩
       · rw [x] at hok; cases hok
       · rw [ha] at hok; injection hok with e; subst e
-        exact ⟨a', ha', by rw [hal]; exact hka, by rw [hl]; exact hkL⟩
+        exact ⟨a', ha', by rw [hal]; exact hka, by rw [hex]; exact hke, by rw [hl]; exact hkL⟩
     obtain ⟨s', hrun, hnow, heq, hrec⟩ := ih s1 hall1
     refine ⟨s', by simp only [List.map_cons, run, h1]; exact hrun, by rw [hnow, hnow1], opsEq_trans heq1 heq, ?_⟩
     have hnew : s1.status = s.status.set j { priority := o.prio, lifetime := o.lifetime, lastseen := s.now } := by
@@ -104,7 +105,7 @@ theorem run_keepalives {u : Int} (hu : 0 < u) : ∀ (js : List Identity) (s : St
     have hsame : ∀ k, (∃ o1, s1.ops k = some o1 ∧ True) → ∀ r, (∃ o1, s1.ops k = some o1 ∧ r = ({ priority := o1.prio, lifetime := o1.lifetime, lastseen := s1.now } : Rec)) ↔
         (∃ o0, s.ops k = some o0 ∧ r = ({ priority := o0.prio, lifetime := o0.lifetime, lastseen := s.now } : Rec)) := by
       intro k _ r
-      rcases heq1 k with ⟨x, y⟩ | ⟨a, a', ha, ha', hp, hl, _⟩
+      rcases heq1 k with ⟨x, y⟩ | ⟨a, a', ha, ha', hp, hl, _, _⟩
       · simp [x, y]
       · simp [ha, ha', hp, hl, hnow1]
     intro k r
@@ -145,28 +146,28 @@ theorem run_keepalives {u : Int} (hu : 0 < u) : ∀ (js : List Identity) (s : St
 
 /-- a batch of deliveries to running operators always runs -/
 theorem run_delivers_enabled {u : Int} : ∀ (js : List Identity) (s : State),
-    (∀ j ∈ js, ∃ o, s.ops j = some o ∧ o.alive = true) →
+    (∀ j ∈ js, ∃ o, s.ops j = some o ∧ o.alive = true ∧ o.exiting = false) →
     ∃ s', run u s (js.map Label.deliver) = some s' := by
   intro js
   induction js with
   | nil => intro s _; exact ⟨s, rfl⟩
   | cons j rest ih =>
     intro s hall
-    obtain ⟨o, ho, hoa⟩ := hall j List.mem_cons_self
+    obtain ⟨o, ho, hoa, hoe⟩ := hall j List.mem_cons_self
     have hstep : ∃ s1, step u s (.deliver j) = some s1 := by
-      simp only [step, ho, hoa, if_true]; exact ⟨_, rfl⟩
+      simp only [step, ho, hoa, hoe]; exact ⟨_, rfl⟩
     obtain ⟨s1, h1⟩ := hstep
     obtain ⟨o', ho', _, _, _, _, _, hops1⟩ := deliver_spec h1
     rw [ho] at ho'; injection ho' with e; subst e
-    have hall1 : ∀ k ∈ rest, ∃ o, s1.ops k = some o ∧ o.alive = true := by
+    have hall1 : ∀ k ∈ rest, ∃ o, s1.ops k = some o ∧ o.alive = true ∧ o.exiting = false := by
       intro k hk
-      obtain ⟨ok, hok, hka⟩ := hall k (List.mem_cons_of_mem _ hk)
+      obtain ⟨ok, hok, hka, hke⟩ := hall k (List.mem_cons_of_mem _ hk)
       by_cases hkj : k = j
       · subst hkj
         rw [ho] at hok; injection hok with e; subst e
         exact ⟨{ o with paused := blockedB u s.status k o.prio s.now, seen := some (s.ver, s.now),
-                        sleeping := willTouch u s k o }, by rw [hops1]; simp, hka⟩
-      · exact ⟨ok, by rw [hops1, updOp_other _ _ hkj]; exact hok, hka⟩
+                        sleeping := willTouch u s k o }, by rw [hops1]; simp, hka, hke⟩
+      · exact ⟨ok, by rw [hops1, updOp_other _ _ hkj]; exact hok, hka, hke⟩
     obtain ⟨s', hrun⟩ := ih s1 hall1
     exact ⟨s', by simp only [List.map_cons, run, h1]; exact hrun⟩
 
